@@ -33,7 +33,7 @@ static PROP: AgentProp = AgentProp {
 };
 
 pub fn run(ctx: &Ctx) -> EvidenceMeta {
-    drive(ctx, &PROP, 4_000, 200_000);
+    drive(ctx, &PROP, 25_000, 800_000);
     EvidenceMeta {
         rule: "histories as in C05/C06 with generated message contents (typed and raw attributes, sealing, fingerprint, two methods) and 3 \
                destinations (IPv4/IPv6), both transports, requests, indications and responses sent through the agent. Oracle: every Transmit \
